@@ -1025,6 +1025,748 @@ theorem parseQ_good : ∀ (ts : List Tok) (st : QSt) (q : MQ),
 theorem parseQ_goodType (ts : List Tok) (q : MQ) (h : parseQ {} ts = .ok q) : GoodType q :=
   parseQ_good ts {} q (by intro v hv; simp at hv) h
 
+/-! ## histories of edit operations -/
+
+inductive Op
+  | append (raising : Bool) (t : MediumText)
+  | delete (raising : Bool) (old : Cps)
+  | setItem (raising : Bool) (index : Int) (t : MediumText)
+
+def ML.apply (m : ML) : Op → ML
+  | .append r t => (m.appendMedium r t).1
+  | .delete r o => (m.deleteMedium r o).1
+  | .setItem r i t => (m.setItem r i t).1
+
+/-- the invariant of the edit operations: no list-level comment, canonical ordered set -/
+def Inv (m : ML) : Prop := NoComments m.seq ∧ CanonV (view m.seq)
+
+theorem noComments_eraseIdx (l : List LItem) (i : Nat) (h : NoComments l) : NoComments (l.eraseIdx i) :=
+  fun x hx => h x ((List.eraseIdx_sublist l i).subset hx)
+
+theorem view_eraseIdx (l : List LItem) (i : Nat) (h : NoComments l) : view (l.eraseIdx i) = (view l).eraseIdx i := by
+  have hs := noComments_eq l h
+  generalize queries l = qs at hs
+  rw [hs, map_query_eraseIdx, view_map_query, view_map_query]
+  simp [List.eraseIdx_eq_take_drop_succ, List.map_take, List.map_drop]
+
+theorem canonV_eraseIdx (v : List Entry) (i : Nat) (h : CanonV v) : CanonV (v.eraseIdx i) := by
+  refine ⟨List.Nodup.sublist (List.Sublist.filter _ (List.eraseIdx_sublist v i)) h.1, ?_⟩
+  intro e he hall
+  have hev : e ∈ v := (List.eraseIdx_sublist v i).subset he
+  have hv := h.2 e hev hall
+  rw [hv] at he ⊢
+  cases i with
+  | zero => simp at he
+  | succ n => simp
+
+theorem deleteMedium_inv (m : ML) (r : Bool) (o : Cps) (h : Inv m) : Inv (m.deleteMedium r o).1 := by
+  unfold ML.deleteMedium
+  cases hf : findType (normalize o) (queries m.seq) with
+  | none => exact h
+  | some i =>
+    exact ⟨noComments_eraseIdx _ _ h.1, by
+      show CanonV (view (m.seq.eraseIdx i))
+      rw [view_eraseIdx _ _ h.1]; exact canonV_eraseIdx _ _ h.2⟩
+
+theorem view_length (l : List LItem) (h : NoComments l) : (view l).length = l.length := by
+  have hs := noComments_eq l h
+  conv => rhs; rw [hs]
+  simp [view]
+
+theorem appendMedium_inv (m : ML) (r : Bool) (t : MediumText) (h : Inv m) : Inv (m.appendMedium r t).1 := by
+  cases t with
+  | none => simp [ML.appendMedium, prepareSet]; exact h
+  | some toks =>
+    cases hq : parseQ {} toks with
+    | bad => cases r <;> simp [ML.appendMedium, prepareSet, hq] <;> exact h
+    | unsupported => simp [ML.appendMedium, prepareSet, hq]; exact h
+    | ok q =>
+      obtain ⟨h1, h2⟩ := appendMedium_refines m r toks q h.1 hq (parseQ_goodType toks q hq)
+      cases hs : specAppend (view m.seq) (entryOf q) with
+      | none => rw [(h1 hs).1]; exact h
+      | some v' =>
+        obtain ⟨e1, _, e3, _⟩ := h2 v' hs
+        exact ⟨e3, by rw [e1]; exact specAppend_canon _ _ _ h.2 hs⟩
+
+theorem setItem_inv (m : ML) (r : Bool) (i : Int) (t : MediumText) (h : Inv m) : Inv (m.setItem r i t).1 := by
+  cases t with
+  | none => simp [ML.setItem, prepareSet]; exact h
+  | some toks =>
+    cases hq : parseQ {} toks with
+    | bad => cases r <;> simp [ML.setItem, prepareSet, hq] <;> exact h
+    | unsupported => simp [ML.setItem, prepareSet, hq]; exact h
+    | ok q =>
+      obtain ⟨h1, h2⟩ := setItem_refines m r i toks q h.1 hq
+      cases hp : pyIndex m.seq.length i with
+      | none => rw [h1 hp]; exact h
+      | some k =>
+        obtain ⟨e1, _, e3, _⟩ := h2 k hp
+        have hk : k < (view m.seq).length := by rw [view_length _ h.1]; exact pyIndex_lt _ _ _ hp
+        exact ⟨e3, by rw [e1]; exact specSetItem_canon _ _ _ h.2 hk⟩
+
+theorem apply_inv (m : ML) (op : Op) (h : Inv m) : Inv (m.apply op) := by
+  cases op with
+  | append r t => exact appendMedium_inv m r t h
+  | delete r o => exact deleteMedium_inv m r o h
+  | setItem r i t => exact setItem_inv m r i t h
+
+theorem history_inv (ops : List Op) : ∀ m : ML, Inv m → Inv (ops.foldl ML.apply m) := by
+  induction ops with
+  | nil => intro m h; exact h
+  | cons op r ih => intro m h; exact ih _ (apply_inv m op h)
+
+/-! ## the parse-time filter yields a canonical set when the types are spelled in lower case -/
+
+/-- guard of known finding C17-parse-dedup-case: every media type of the text is spelled in its normal form -/
+def Lower (l : List LItem) : Prop := ∀ q ∈ queries l, normalize q.mediaType = q.mediaType
+
+theorem queries_cons_query (q : MQ) (r : List LItem) : queries (.query q :: r) = q :: queries r := by
+  simp [queries]
+
+theorem queries_cons_comment (c : Tok) (r : List LItem) : queries (.comment c :: r) = queries r := by
+  simp [queries]
+
+theorem lower_tail (a : LItem) (r : List LItem) (h : Lower (a :: r)) : Lower r := by
+  intro q hq
+  cases a with
+  | comment c => exact h q (by rw [queries_cons_comment]; exact hq)
+  | query q0 => exact h q (by rw [queries_cons_query]; exact List.mem_cons_of_mem _ hq)
+
+theorem view_simple_eq (l : List LItem) (h : Lower l) :
+    (view l).filter Entry.isSimple = (simpleTypes l).map Entry.simple := by
+  induction l with
+  | nil => rfl
+  | cons a r ih =>
+    have ih' := ih (lower_tail a r h)
+    cases a with
+    | comment c => simpa [view, queries_cons_comment, simpleTypes_cons_comment] using ih'
+    | query q =>
+      have hq : normalize q.mediaType = q.mediaType := h q (by rw [queries_cons_query]; simp)
+      simp only [view] at ih' ⊢
+      rw [queries_cons_query, List.map_cons, List.filter_cons, simpleTypes_cons_query]
+      by_cases he : q.mediaType.isEmpty = true
+      · simp [entryOf, he, Entry.isSimple, ih']
+      · have he' : q.mediaType.isEmpty = false := by simpa using he
+        simp [entryOf, he', Entry.isSimple, ih', hq]
+
+theorem lower_sublist (a b : List LItem) (hs : a.Sublist b) (h : Lower b) : Lower a := by
+  intro q hq
+  apply h q
+  have : (queries a).Sublist (queries b) := by
+    unfold queries; exact List.Sublist.filterMap _ hs
+  exact this.subset hq
+
+theorem queries_comments_append (a : List LItem) (x : Option LItem) :
+    queries (a.filter isComment ++ x.toList) = queries x.toList := by
+  induction a with
+  | nil => simp
+  | cons b r ih =>
+    cases b with
+    | comment c => simpa [List.filter_cons, isComment, queries_cons_comment] using ih
+    | query q => simpa [List.filter_cons, isComment] using ih
+
+theorem canonSpec_sublist (l : List LItem) : (canonSpec l).Sublist l := by
+  unfold canonSpec
+  split
+  · have h1 : ∀ l : List LItem,
+        ((l.takeWhile (fun i => !isLitAll i)).filter isComment ++ (l.find? isLitAll).toList).Sublist l := by
+      intro l
+      induction l with
+      | nil => simp
+      | cons a r ih =>
+        by_cases ha : isLitAll a = true
+        · simp [List.takeWhile_cons, List.find?_cons, ha]
+        · have ha' : isLitAll a = false := by simpa using ha
+          simp only [List.takeWhile_cons, ha', Bool.not_false, if_true, List.find?_cons, List.filter_cons]
+          split
+          · exact List.Sublist.cons₂ _ ih
+          · exact List.Sublist.cons _ ih
+    exact h1 l
+  · exact dedupFrom_sublist l []
+
+theorem canonSpec_types_nodup (l : List LItem) : (simpleTypes (canonSpec l)).Nodup := by
+  unfold canonSpec
+  split
+  · have : ∀ (a : List LItem) (x : Option LItem), (simpleTypes (a.filter isComment ++ x.toList)).Nodup := by
+      intro a x
+      induction a with
+      | nil => cases x with
+        | none => simp [simpleTypes]
+        | some i => cases i with
+          | comment c => simp [simpleTypes]
+          | query q => by_cases hq : q.mediaType.isEmpty = true <;> simp [simpleTypes, hq]
+      | cons b r ih =>
+        cases b with
+        | comment c => simpa [List.filter_cons, isComment, simpleTypes] using ih
+        | query q => simpa [List.filter_cons, isComment] using ih
+    exact this _ _
+  · exact (dedupFrom_types l []).1
+
+theorem canon_canonV (l : List LItem) (h : Lower l) : CanonV (view (canon l)) := by
+  rw [canon_eq_spec]
+  have hsub := canonSpec_sublist l
+  have hlow : Lower (canonSpec l) := lower_sublist _ _ hsub h
+  refine ⟨?_, ?_⟩
+  · rw [view_simple_eq _ hlow]
+    have hn := canonSpec_types_nodup l
+    refine List.Pairwise.map _ ?_ hn
+    intro a b hab hc
+    exact hab (by simpa using hc)
+  · intro e he hall
+    -- e comes from a query of the result whose (lower-case) type is `all`: a literal `all` of the text
+    simp only [view, List.mem_map] at he
+    obtain ⟨q, hq, rfl⟩ := he
+    have hqn : normalize q.mediaType = q.mediaType := hlow q hq
+    have hqa : isAllType q.mediaType = true := by
+      have := entryOf_isAll q; rw [hall, hqn] at this; exact this.symm
+    have hqe : q.mediaType.isEmpty = false := by
+      cases hm : q.mediaType with
+      | nil => rw [hm, isAllType_nil] at hqa; simp at hqa
+      | cons _ _ => rfl
+    have hlit : isLitAll (.query q) = true := by simp [isLitAll, hqe, hqa]
+    have hql : LItem.query q ∈ l := by
+      have : LItem.query q ∈ canonSpec l := by
+        unfold queries at hq
+        simp only [List.mem_filterMap] at hq
+        obtain ⟨i, hi, hiq⟩ := hq
+        cases i with
+        | comment c => simp at hiq
+        | query q' => simp at hiq; subst hiq; exact hi
+      exact hsub.subset this
+    have hany : l.any isLitAll = true := List.any_eq_true.2 ⟨_, hql, hlit⟩
+    have hform : canonSpec l =
+        (l.takeWhile (fun i => !isLitAll i)).filter isComment ++ (l.find? isLitAll).toList := by
+      unfold canonSpec; simp [hany]
+    rw [hform, queries_comments_append] at hq
+    show view (canonSpec l) = [entryOf q]
+    rw [hform]
+    simp only [view, queries_comments_append]
+    cases hf : l.find? isLitAll with
+    | none => rw [hf] at hq; simp [queries] at hq
+    | some i =>
+      rw [hf] at hq
+      cases i with
+      | comment c => simp [queries] at hq
+      | query q' =>
+        simp [queries] at hq
+        subst hq
+        simp [queries]
+
+/-! ## the nested query parser of a list and the stand-alone parser differ only in the stop flag -/
+
+def QSt.core (st : QSt) : QSt := { st with stopIf := false }
+
+def StepRes.core : StepRes → StepRes
+  | .cont st => .cont st.core
+  | r => r
+
+theorem stepQ_core (p p' : Bool) (st st2 : QSt) (t : Tok) (h : st.core = st2.core) :
+    (stepQ p st t).core = (stepQ p' st2 t).core := by
+  obtain ⟨s, items, stopIf, mtype, notSimple⟩ := st
+  obtain ⟨s2, items2, stopIf2, mtype2, notSimple2⟩ := st2
+  simp only [QSt.core, QSt.mk.injEq, true_and] at h
+  obtain ⟨rfl, rfl, rfl, rfl⟩ := h
+  unfold stepQ
+  cases s <;> simp only [] <;> (repeat' split) <;> simp_all [StepRes.core, QSt.core, QSt.emit]
+
+theorem core_core (st : QSt) : st.core.core = st.core := rfl
+theorem core_toMQ (st : QSt) : st.core.toMQ = st.toMQ := rfl
+theorem core_toks (st : QSt) : st.core.toks = st.toks := rfl
+theorem core_s (st : QSt) : st.core.s = st.s := rfl
+
+theorem stepQ_cont_core (p p' : Bool) (st st2 st' : QSt) (t : Tok) (h : st.core = st2.core)
+    (hs : stepQ p st t = .cont st') : ∃ st2', stepQ p' st2 t = .cont st2' ∧ st2'.core = st'.core := by
+  have := stepQ_core p p' st st2 t h
+  rw [hs] at this
+  cases h2 : stepQ p' st2 t with
+  | cont x => rw [h2] at this; simp [StepRes.core] at this; exact ⟨x, rfl, this.symm⟩
+  | noMatch => rw [h2] at this; simp [StepRes.core] at this
+  | missing => rw [h2] at this; simp [StepRes.core] at this
+  | unsupported => rw [h2] at this; simp [StepRes.core] at this
+
+/-! ## T17.4 — every medium of an accepted list is a well-formed query (repaired parser) -/
+
+/-- the state of a query parse is determined by the tokens it has consumed -/
+def TracedI (st : QSt) : Prop := ∀ ts, parseQ {} (st.toks ++ ts) = parseQ st.core ts
+
+theorem traced_init : TracedI {} := fun _ => rfl
+
+theorem traced_comment (st : QSt) (t : Tok) (ht : t.typ = .comment) (h : TracedI st) :
+    TracedI { st with items := .comment t :: st.items } := by
+  intro ts
+  have := h (t :: ts)
+  simp only [parseQ, ht] at this
+  simp only [QSt.toks, List.reverse_cons, List.map_append, List.map_cons, List.map_nil, QItem.toTok,
+    List.append_assoc, List.singleton_append]
+  exact this
+
+theorem traced_step (p : Bool) (st st' : QSt) (t : Tok) (ht : t.typ.special = false) (h : TracedI st)
+    (hs : stepQ p st t = .cont st') : TracedI st' := by
+  intro ts
+  obtain ⟨x, hx1, hx2⟩ := stepQ_emit p st st' t hs
+  obtain ⟨c', hc1, hc2⟩ := stepQ_cont_core p false st st.core st' t rfl hs
+  have := h (t :: ts)
+  rw [parseQ_cons_sig _ _ _ ht, hc1] at this
+  simp only [QSt.toks] at this
+  simp only [QSt.toks, hx1, List.reverse_cons, List.map_append, List.map_cons, List.map_nil, hx2,
+    List.append_assoc, List.singleton_append]
+  rw [this]
+  show parseQ c' ts = parseQ st'.core ts
+  -- parseQ depends on the state only through its core … which here are equal
+  have hcc : c' = st'.core := by
+    have e := hc2
+    unfold QSt.core at e ⊢
+    -- c' comes from a `false`-step of a core state: its stop flag is false
+    have hf : c'.stopIf = false := by
+      have := hc1
+      unfold stepQ at this
+      cases hs0 : st.core.s <;> simp only [hs0] at this <;> (repeat' split at this) <;>
+        simp_all [QSt.emit, QSt.core] <;> (subst this; simp)
+    cases c'; cases st'; simp_all
+  rw [hcc]
+
+theorem stepQ_not_start (p : Bool) (st st' : QSt) (t : Tok) (hs : stepQ p st t = .cont st') : st'.s ≠ .start := by
+  unfold stepQ at hs
+  cases hs0 : st.s <;> simp only [hs0] at hs <;> (repeat' split at hs) <;>
+    simp_all [QSt.emit] <;> (subst hs; simp)
+
+theorem stepQ_noMatch_state (p : Bool) (st : QSt) (t : Tok) (hs : stepQ p st t = .noMatch) :
+    st.s = .start ∨ st.s.accepting = true := by
+  unfold stepQ at hs
+  cases hs0 : st.s <;> simp only [hs0] at hs <;> (repeat' split at hs) <;> simp_all [QS.accepting]
+
+theorem traced_close (st : QSt) (h : TracedI st) (ha : st.s.accepting = true) :
+    parseQ {} st.toMQ.toks = .ok st.toMQ := by
+  have := h []
+  simp only [List.append_nil, parseQ, core_s, ha, if_true, core_toMQ] at this
+  simpa [MQ.toks, QSt.toMQ, QSt.toks] using this
+
+theorem parseL_cons_cur_sig (strict ft : Bool) (st : LSt) (q : QSt) (t : Tok) (ts : List Tok)
+    (hc : st.cur = some q) (h : t.typ.special = false) :
+    parseL strict ft st (t :: ts) =
+      match stepQ true q t with
+      | .cont q' => parseL strict ft { st with cur := some q' } ts
+      | .unsupported => .unsupported
+      | .noMatch =>
+        if q.stopIf then
+          match listStep (st.closeQuery q) t with
+          | .ok st' => parseL strict ft st' ts
+          | .bad => .bad
+          | .unsupported => .unsupported
+        else .bad
+      | .missing =>
+        if q.stopIf && !strict then
+          if ft && !ts.isEmpty then
+            match listStep (st.closeQuery q) t with
+            | .ok st' => parseL strict ft st' ts
+            | .bad => .bad
+            | .unsupported => .unsupported
+          else parseL strict ft (st.closeQuery q) ts
+        else .bad := by
+  cases ht : t.typ <;> simp [ht, TT.special] at h <;> simp only [parseL, hc, ht] <;> try rfl
+
+theorem parseL_cons_none_sig (strict ft : Bool) (st : LSt) (t : Tok) (ts : List Tok)
+    (hc : st.cur = none) (h : t.typ.special = false) :
+    parseL strict ft st (t :: ts) =
+      match listStep st t with
+      | .ok st' => parseL strict ft st' ts
+      | .bad => .bad
+      | .unsupported => .unsupported := by
+  cases ht : t.typ <;> simp [ht, TT.special] at h <;> simp only [parseL, hc, ht] <;> try rfl
+
+/-- invariant of the list parse: the media collected so far are well-formed queries, the open nested parse is
+determined by its tokens -/
+def LWF (st : LSt) : Prop :=
+  (∀ q ∈ queries st.items, parseQ {} q.toks = .ok q) ∧
+  (∀ qst, st.cur = some qst → TracedI qst ∧ qst.s ≠ .start)
+
+theorem lwf_init : LWF {} := ⟨by intro q hq; simp [queries] at hq, by intro q hq; simp at hq⟩
+
+theorem queries_cons_comment' (c : Tok) (r : List LItem) : queries (LItem.comment c :: r) = queries r := by
+  simp [queries]
+
+theorem lwf_close (st : LSt) (q : QSt) (h : LWF st) (hc : st.cur = some q) (ha : q.s.accepting = true) :
+    LWF (st.closeQuery q) := by
+  obtain ⟨h1, h2⟩ := h
+  refine ⟨?_, by intro x hx; simp [LSt.closeQuery] at hx⟩
+  intro x hx
+  simp only [LSt.closeQuery, queries_cons_query, List.mem_cons] at hx
+  rcases hx with rfl | hx
+  · exact traced_close q (h2 q hc).1 ha
+  · exact h1 x hx
+
+theorem lwf_listStep (st st' : LSt) (t : Tok) (ht : t.typ.special = false) (h : LWF st) (hc : st.cur = none)
+    (hs : listStep st t = .ok st') : LWF st' := by
+  obtain ⟨h1, _⟩ := h
+  unfold listStep at hs
+  cases hp : st.phase <;> simp only [hp] at hs
+  · split at hs
+    · cases hq : stepQ true {} t with
+      | cont q =>
+        simp only [hq, POut.ok.injEq] at hs; subst hs
+        exact ⟨h1, by
+          intro x hx; simp at hx; subst hx
+          exact ⟨traced_step true {} _ t ht traced_init hq, stepQ_not_start true {} _ t hq⟩⟩
+      | noMatch => simp [hq] at hs
+      | missing => simp [hq] at hs
+      | unsupported => simp [hq] at hs
+    · simp at hs
+  · split at hs
+    · split at hs
+      · simp only [POut.ok.injEq] at hs; subst hs
+        exact ⟨h1, by intro x hx; simp [hc] at hx⟩
+      · simp at hs
+    · simp at hs
+  · split at hs
+    · cases hq : stepQ true {} t with
+      | cont q =>
+        simp only [hq, POut.ok.injEq] at hs; subst hs
+        exact ⟨h1, by
+          intro x hx; simp at hx; subst hx
+          exact ⟨traced_step true {} _ t ht traced_init hq, stepQ_not_start true {} _ t hq⟩⟩
+      | noMatch => simp [hq] at hs
+      | missing => simp [hq] at hs
+      | unsupported => simp [hq] at hs
+    · simp at hs
+
+/-- T17.4: with the repaired parser every medium of an accepted list is itself a well-formed query — one
+malformed query invalidates the whole list -/
+theorem parseL_strict_wf (ft : Bool) : ∀ (ts : List Tok) (st : LSt) (items : List LItem), LWF st →
+    parseL true ft st ts = .ok items → ∀ q ∈ queries items, parseQ {} q.toks = .ok q := by
+  intro ts
+  induction ts with
+  | nil =>
+    intro st items hw h
+    simp only [parseL] at h
+    cases hc : st.cur with
+    | some q =>
+      simp only [hc] at h
+      split at h
+      · rename_i ha
+        simp only [POut.ok.injEq] at h; subst h
+        have := (lwf_close st q hw hc ha).1
+        intro x hx
+        apply this x
+        unfold queries at hx ⊢
+        simpa using hx
+      · simp at h
+    | none =>
+      simp only [hc] at h
+      have hq : ∀ x ∈ queries st.items.reverse, parseQ {} x.toks = .ok x := by
+        intro x hx
+        apply hw.1 x
+        unfold queries at hx ⊢
+        simpa using hx
+      cases hp : st.phase <;> simp only [hp] at h
+      · split at h
+        · simp at h
+        · simp only [POut.ok.injEq] at h; subst h; exact hq
+      · simp only [POut.ok.injEq] at h; subst h; exact hq
+      · simp at h
+  | cons t ts ih =>
+    intro st items hw h
+    cases hc : st.cur with
+    | some q =>
+      obtain ⟨hq1, hq2⟩ := hw.2 q hc
+      rcases special_cases t with ht | ht | ht | ht | ht
+      · simp only [parseL, hc, ht] at h
+        have hw' : LWF { st with cur := some { q with items := .comment t :: q.items } } :=
+          ⟨hw.1, by
+            intro x hx; simp at hx; subst hx
+            exact ⟨traced_comment q t ht hq1, hq2⟩⟩
+        exact ih _ _ hw' h
+      · simp only [parseL, hc, ht] at h
+        exact ih _ _ hw h
+      · simp [parseL, hc, ht] at h
+      · simp [parseL, hc, ht] at h
+      · rw [parseL_cons_cur_sig true ft st q t ts hc ht] at h
+        cases hstep : stepQ true q t with
+        | cont q' =>
+          simp only [hstep] at h
+          have hw' : LWF { st with cur := some q' } :=
+            ⟨hw.1, by
+              intro x hx; simp at hx; subst hx
+              exact ⟨traced_step true q _ t ht hq1 hstep, stepQ_not_start true q _ t hstep⟩⟩
+          exact ih _ _ hw' h
+        | unsupported => simp [hstep] at h
+        | missing => simp [hstep] at h
+        | noMatch =>
+          simp only [hstep] at h
+          split at h
+          · have hacc : q.s.accepting = true := by
+              rcases stepQ_noMatch_state true q t hstep with h0 | h0
+              · exact absurd h0 hq2
+              · exact h0
+            have hw' := lwf_close st q hw hc hacc
+            cases hl : listStep (st.closeQuery q) t with
+            | ok st' =>
+              simp only [hl] at h
+              exact ih _ _ (lwf_listStep _ _ t ht hw' (by simp [LSt.closeQuery]) hl) h
+            | bad => simp [hl] at h
+            | unsupported => simp [hl] at h
+          · simp at h
+    | none =>
+      rcases special_cases t with ht | ht | ht | ht | ht
+      · simp only [parseL, hc, ht] at h
+        have hw' : LWF { phase := st.phase, items := .comment t :: st.items } :=
+          ⟨by intro x hx; rw [queries_cons_comment'] at hx; exact hw.1 x hx,
+           by intro x hx; simp at hx⟩
+        exact ih _ _ hw' h
+      · simp only [parseL, hc, ht] at h
+        exact ih _ _ hw h
+      · simp [parseL, hc, ht] at h
+      · simp [parseL, hc, ht] at h
+      · rw [parseL_cons_none_sig true ft st t ts hc ht] at h
+        cases hl : listStep st t with
+        | ok st' =>
+          simp only [hl] at h
+          exact ih _ _ (lwf_listStep _ _ t ht hw hc hl) h
+        | bad => simp [hl] at h
+        | unsupported => simp [hl] at h
+
+/-- whatever the repaired parser accepts, the parser as it is accepts with the same result -/
+theorem parseL_strict_agree (ft : Bool) : ∀ (ts : List Tok) (st : LSt) (items : List LItem),
+    parseL true ft st ts = .ok items → parseL false ft st ts = .ok items := by
+  intro ts
+  induction ts with
+  | nil => intro st items h; simpa only [parseL] using h
+  | cons t ts ih =>
+    intro st items h
+    cases hc : st.cur with
+    | some q =>
+      rcases special_cases t with ht | ht | ht | ht | ht
+      · simp only [parseL, hc, ht] at h ⊢; exact ih _ _ h
+      · simp only [parseL, hc, ht] at h ⊢; exact ih _ _ h
+      · simp [parseL, hc, ht] at h
+      · simp [parseL, hc, ht] at h
+      · rw [parseL_cons_cur_sig true ft st q t ts hc ht] at h
+        rw [parseL_cons_cur_sig false ft st q t ts hc ht]
+        cases hstep : stepQ true q t with
+        | cont q' => simp only [hstep] at h ⊢; exact ih _ _ h
+        | unsupported => simp [hstep] at h
+        | missing => simp [hstep] at h
+        | noMatch =>
+          simp only [hstep] at h ⊢
+          split
+          · rename_i hs
+            simp only [hs, if_true] at h
+            cases hl : listStep (st.closeQuery q) t with
+            | ok st' => simp only [hl] at h ⊢; exact ih _ _ h
+            | bad => simp [hl] at h
+            | unsupported => simp [hl] at h
+          · rename_i hs
+            simp [hs] at h
+    | none =>
+      rcases special_cases t with ht | ht | ht | ht | ht
+      · simp only [parseL, hc, ht] at h ⊢; exact ih _ _ h
+      · simp only [parseL, hc, ht] at h ⊢; exact ih _ _ h
+      · simp [parseL, hc, ht] at h
+      · simp [parseL, hc, ht] at h
+      · rw [parseL_cons_none_sig true ft st t ts hc ht] at h
+        rw [parseL_cons_none_sig false ft st t ts hc ht]
+        cases hl : listStep st t with
+        | ok st' => simp only [hl] at h ⊢; exact ih _ _ h
+        | bad => simp [hl] at h
+        | unsupported => simp [hl] at h
+
+/-! ## T17.3 — the tokens of a list parse back to the list (lists without comments) -/
+
+/-- the automaton run over significant tokens -/
+def runQ (p : Bool) : QSt → List Tok → Option QSt
+  | st, [] => some st
+  | st, t :: ts => match stepQ p st t with
+    | .cont st' => runQ p st' ts
+    | _ => none
+
+def AllSig (ts : List Tok) : Prop := ∀ t ∈ ts, t.typ.special = false
+
+theorem parseQ_run : ∀ (ts : List Tok) (st : QSt) (q : MQ), AllSig ts → parseQ st ts = .ok q →
+    ∃ st', runQ false st ts = some st' ∧ st'.s.accepting = true ∧ st'.toMQ = q := by
+  intro ts
+  induction ts with
+  | nil =>
+    intro st q _ h
+    simp only [parseQ] at h
+    split at h
+    · rename_i ha; simp only [POut.ok.injEq] at h; exact ⟨st, rfl, ha, h⟩
+    · simp at h
+  | cons t ts ih =>
+    intro st q hs h
+    have ht : t.typ.special = false := hs t (by simp)
+    rw [parseQ_cons_sig st t ts ht] at h
+    cases hstep : stepQ false st t with
+    | cont st' =>
+      simp only [hstep] at h
+      obtain ⟨sf, h1, h2, h3⟩ := ih st' q (fun x hx => hs x (by simp [hx])) h
+      exact ⟨sf, by simp [runQ, hstep, h1], h2, h3⟩
+    | noMatch => simp [hstep] at h
+    | missing => simp [hstep] at h
+    | unsupported => simp [hstep] at h
+
+theorem runQ_core (p p' : Bool) : ∀ (ts : List Tok) (st st2 sf : QSt), st.core = st2.core →
+    runQ p st ts = some sf → ∃ sf2, runQ p' st2 ts = some sf2 ∧ sf2.core = sf.core := by
+  intro ts
+  induction ts with
+  | nil => intro st st2 sf h hr; simp [runQ] at hr; subst hr; exact ⟨st2, rfl, h.symm⟩
+  | cons t ts ih =>
+    intro st st2 sf h hr
+    cases hstep : stepQ p st t with
+    | cont st' =>
+      simp only [runQ, hstep] at hr
+      obtain ⟨st2', h1, h2⟩ := stepQ_cont_core p p' st st2 st' t h hstep
+      obtain ⟨sf2, h3, h4⟩ := ih st' st2' sf h2.symm hr
+      exact ⟨sf2, by simp [runQ, h1, h3], h4⟩
+    | noMatch => simp [runQ, hstep] at hr
+    | missing => simp [runQ, hstep] at hr
+    | unsupported => simp [runQ, hstep] at hr
+
+/-- after any step of a nested parser, a state in which the query could end has the stop flag set -/
+def StopSet (st : QSt) : Prop := st.s.accepting = true → st.stopIf = true
+
+theorem stepQ_stopSet (st st' : QSt) (t : Tok) (hs : stepQ true st t = .cont st') : StopSet st' := by
+  unfold stepQ at hs
+  intro ha
+  cases hs0 : st.s <;> simp only [hs0] at hs <;> (repeat' split at hs) <;>
+    simp_all [QSt.emit] <;> (subst hs; simp_all [QS.accepting])
+
+theorem runQ_stopSet : ∀ (ts : List Tok) (st sf : QSt), StopSet st → runQ true st ts = some sf → StopSet sf := by
+  intro ts
+  induction ts with
+  | nil => intro st sf h hr; simp [runQ] at hr; subst hr; exact h
+  | cons t ts ih =>
+    intro st sf _ hr
+    cases hstep : stepQ true st t with
+    | cont st' =>
+      simp only [runQ, hstep] at hr
+      exact ih st' sf (stepQ_stopSet st st' t hstep) hr
+    | noMatch => simp [runQ, hstep] at hr
+    | missing => simp [runQ, hstep] at hr
+    | unsupported => simp [runQ, hstep] at hr
+
+/-- feeding the tokens of a run to the nested parser of a list -/
+theorem parseL_feed (strict ft : Bool) : ∀ (ts : List Tok) (st : LSt) (q qf : QSt) (rest : List Tok),
+    AllSig ts → st.cur = some q → runQ true q ts = some qf →
+    parseL strict ft st (ts ++ rest) = parseL strict ft { st with cur := some qf } rest := by
+  intro ts
+  induction ts with
+  | nil =>
+    intro st q qf rest _ hc hr
+    simp [runQ] at hr; subst hr
+    have : st = { st with cur := some q } := by cases st; simp_all
+    rw [List.nil_append]; exact congrArg (fun s => parseL strict ft s rest) this
+  | cons t ts ih =>
+    intro st q qf rest hs hc hr
+    have ht : t.typ.special = false := hs t (by simp)
+    cases hstep : stepQ true q t with
+    | cont q' =>
+      simp only [runQ, hstep] at hr
+      rw [List.cons_append, parseL_cons_cur_sig strict ft st q t _ hc ht]
+      simp only [hstep]
+      rw [ih { st with cur := some q' } q' qf rest (fun x hx => hs x (by simp [hx])) rfl hr]
+    | noMatch => simp [runQ, hstep] at hr
+    | missing => simp [runQ, hstep] at hr
+    | unsupported => simp [runQ, hstep] at hr
+
+theorem stepQ_start_queryStart (p : Bool) (st' : QSt) (t : Tok) (hs : stepQ p {} t = .cont st') :
+    isQueryStart t = true := by
+  unfold stepQ at hs
+  simp only [] at hs
+  unfold isQueryStart
+  (repeat' split at hs) <;> simp_all [charIs]
+
+/-- a well-formed, comment-free query: what the edit operations and the parser put into a list -/
+def GoodQ (q : MQ) : Prop := parseQ {} q.toks = .ok q ∧ AllSig q.toks
+
+/-- one query: from "expecting a query" to "query complete, nested parser still open" -/
+theorem parseL_one_query (strict ft : Bool) (st : LSt) (q : MQ) (rest : List Tok) (hg : GoodQ q)
+    (hc : st.cur = none) (hp : st.phase = .start ∨ st.phase = .afterComma) :
+    ∃ qf : QSt, qf.s.accepting = true ∧ qf.stopIf = true ∧ qf.toMQ = q ∧
+      parseL strict ft st (q.toks ++ rest) =
+        parseL strict ft { phase := .afterQuery, items := st.items, cur := some qf } rest := by
+  obtain ⟨hw, hsig⟩ := hg
+  obtain ⟨sf, hr, hacc, hmq⟩ := parseQ_run q.toks {} q hsig hw
+  cases hts : q.toks with
+  | nil => rw [hts] at hr; simp [runQ] at hr; subst hr; simp [QS.accepting] at hacc
+  | cons t0 ts' =>
+    rw [hts] at hr hsig
+    have ht0 : t0.typ.special = false := hsig t0 (by simp)
+    cases hstep : stepQ false {} t0 with
+    | cont c1 =>
+      simp only [runQ, hstep] at hr
+      obtain ⟨q1, hq1, hq1c⟩ := stepQ_cont_core false true {} {} c1 t0 rfl hstep
+      obtain ⟨qf, hqf, hqfc⟩ := runQ_core false true ts' c1 q1 sf hq1c.symm hr
+      have hstop : StopSet qf := runQ_stopSet ts' q1 qf (stepQ_stopSet {} q1 t0 hq1) hqf
+      have hqs : qf.s = sf.s := by have := congrArg QSt.s hqfc; simpa [QSt.core] using this
+      have hqacc : qf.s.accepting = true := by rw [hqs]; exact hacc
+      have hqmq : qf.toMQ = q := by
+        rw [← hmq, ← core_toMQ qf, ← core_toMQ sf, hqfc]
+      refine ⟨qf, hqacc, hstop hqacc, hqmq, ?_⟩
+      have hstart : isQueryStart t0 = true := stepQ_start_queryStart false c1 t0 hstep
+      have hl : listStep st t0 = .ok { st with phase := .afterQuery, cur := some q1 } := by
+        unfold listStep
+        rcases hp with hp | hp <;> simp [hp, hstart, hq1]
+      rw [List.cons_append, parseL_cons_none_sig strict ft st t0 _ hc ht0, hl]
+      simp only []
+      rw [parseL_feed strict ft ts' _ q1 qf rest (fun x hx => hsig x (by simp [hx])) rfl hqf]
+    | noMatch => simp [runQ, hstep] at hr
+    | missing => simp [runQ, hstep] at hr
+    | unsupported => simp [runQ, hstep] at hr
+
+theorem commaTok_sig : commaTok.typ.special = false := rfl
+
+/-- the comma after a complete query: the nested parser hands it back, the list parser takes it -/
+theorem parseL_comma (strict ft : Bool) (acc : List LItem) (qf : QSt) (rest : List Tok)
+    (ha : qf.s.accepting = true) (hs : qf.stopIf = true) :
+    parseL strict ft { phase := .afterQuery, items := acc, cur := some qf } (commaTok :: rest) =
+      parseL strict ft { phase := .afterComma, items := .query qf.toMQ :: acc, cur := none } rest := by
+  rw [parseL_cons_cur_sig strict ft _ qf commaTok rest rfl commaTok_sig]
+  have hstep : stepQ true qf commaTok = .noMatch := by
+    unfold stepQ
+    cases hq : qf.s <;> simp [hq, QS.accepting] at ha <;> simp [commaTok]
+  simp only [hstep, hs, if_true]
+  have : listStep (LSt.closeQuery { phase := .afterQuery, items := acc, cur := some qf } qf) commaTok =
+      .ok { phase := .afterComma, items := .query qf.toMQ :: acc, cur := none } := by
+    simp [listStep, LSt.closeQuery, charIs, commaTok]
+  rw [this]
+
+theorem parseL_end (strict ft : Bool) (acc : List LItem) (qf : QSt) (ha : qf.s.accepting = true) :
+    parseL strict ft { phase := .afterQuery, items := acc, cur := some qf } [] =
+      .ok ((LItem.query qf.toMQ :: acc).reverse) := by
+  simp [parseL, ha, LSt.closeQuery]
+
+theorem toksL_cons_query (q : MQ) (r : List LItem) (first : Bool) :
+    toksL (.query q :: r) first = (if first then [] else [commaTok]) ++ q.toks ++ toksL r false := rfl
+
+theorem parseL_rest (strict ft : Bool) : ∀ (r : List MQ) (acc : List LItem) (qf : QSt),
+    (∀ q ∈ r, GoodQ q) → qf.s.accepting = true → qf.stopIf = true →
+    parseL strict ft { phase := .afterQuery, items := acc, cur := some qf } (toksL (r.map LItem.query) false) =
+      .ok ((LItem.query qf.toMQ :: acc).reverse ++ r.map LItem.query) := by
+  intro r
+  induction r with
+  | nil => intro acc qf _ ha _; simp [toksL, parseL_end strict ft acc qf ha]
+  | cons q r ih =>
+    intro acc qf hg ha hs
+    rw [List.map_cons, toksL_cons_query]
+    simp only [Bool.false_eq_true, if_false, List.singleton_append, List.cons_append]
+    rw [parseL_comma strict ft acc qf _ ha hs]
+    obtain ⟨qf', ha', hs', hmq', he⟩ := parseL_one_query strict ft
+      { phase := .afterComma, items := .query qf.toMQ :: acc, cur := none } q (toksL (r.map LItem.query) false)
+      (hg q (by simp)) rfl (Or.inr rfl)
+    simp only [List.nil_append] at he ⊢
+    rw [he, ih _ qf' (fun x hx => hg x (by simp [hx])) ha' hs', hmq']
+    simp
+
+/-- T17.3 (comment-free lists): the token-level serialisation of a non-empty list of well-formed queries parses
+back to exactly that list -/
+theorem parseL_reparse (strict ft : Bool) (q : MQ) (r : List MQ) (hg : ∀ x ∈ q :: r, GoodQ x) :
+    parseL strict ft {} (toksL ((q :: r).map LItem.query) true) = .ok ((q :: r).map LItem.query) := by
+  rw [List.map_cons, toksL_cons_query]
+  simp only [if_true, List.nil_append]
+  obtain ⟨qf, ha, hs, hmq, he⟩ := parseL_one_query strict ft {} q (toksL (r.map LItem.query) false)
+    (hg q (by simp)) rfl (Or.inl rfl)
+  rw [he, parseL_rest strict ft r [] qf (fun x hx => hg x (by simp [hx])) ha hs, hmq]
+  simp
+
 /-! ## concrete tokens for the machine-checked witnesses (code points written out: `decide` evaluates them) -/
 
 def tIdent (v : Cps) : Tok := { typ := .ident, val := v, text := v }
